@@ -1,4 +1,7 @@
-/-! Prototype: the whole fastcsv reader (with the look-ahead repaired) is independent of the read schedule. -/
+/-! Prototype: the whole fastcsv reader is independent of the read schedule. The model follows the
+    repaired internal/fastcsv/csv.go: look-ahead loop in `nextQuotedField`; CR skipped only after a
+    closing quote; a last record ending with a delimiter and no line break yields a final empty field
+    (`fields.next` at EOF with `fieldStart > 0`, `nextQuotedField` at EOF with the delimiter as last byte). -/
 namespace Full
 abbrev Byte := UInt8
 
@@ -110,28 +113,36 @@ def quoted (delim : Byte) (fuel : Nat) (s : St) (start w qc : Nat) : Option (Res
   | 0 => none
   | fuel + 1 =>
     match ensure2 (s.future.length + 1) s with
-    | (s, some e) => some (⟨s.slice start w, true, some e⟩, s)
+    | (s, some e) =>
+      -- `err == io.EOF` (the only error of this model) `&& quoteCount%2 != 0 && cursor < len(data) &&
+      -- data[cursor] == delimiter`: the input ends with a delimiter right after the closing quote;
+      -- the delimiter is consumed, the row continues (with the empty last field of `fnext`)
+      if qc % 2 != 0 && decide (s.cursor < s.data.length) && s.data[s.cursor]? == some delim then
+        some (⟨s.slice start w, false, none⟩, { s with cursor := s.cursor + 1 })
+      else some (⟨s.slice start w, true, some e⟩, s)
     | (s, none) =>
       match s.data[s.cursor]? with
       | none => none
       | some ch =>
         let s := { s with cursor := s.cursor + 1 }
-        let keep : Option (Res × St) :=
+        -- `keep` is a function, so that (compiled, strict evaluation) its recursive call runs only in the
+        -- branch that takes it
+        let keep : Unit → Option (Res × St) := fun _ =>
           if w + 1 != s.cursor then
             match s.data[s.cursor]? with
             | none => none
             | some nb => quoted delim fuel { s with data := s.data.set (w + 1) nb } start (w + 1) 0
           else quoted delim fuel s start (w + 1) 0
-        if ch == delim then (if qc % 2 != 0 then some (⟨s.slice start w, false, none⟩, s) else keep)
-        else if ch == LF then (if qc % 2 != 0 then some (⟨s.slice start w, true, none⟩, s) else keep)
-        else if ch == CR then quoted delim fuel s start w qc
-        else if ch == QUOTE then (if (qc + 1) % 2 == 1 then quoted delim fuel s start w (qc + 1) else keep)
-        else keep
+        if ch == delim then (if qc % 2 != 0 then some (⟨s.slice start w, false, none⟩, s) else keep ())
+        else if ch == LF then (if qc % 2 != 0 then some (⟨s.slice start w, true, none⟩, s) else keep ())
+        else if ch == CR then (if qc % 2 != 0 then quoted delim fuel s start w qc else keep ())
+        else if ch == QUOTE then (if (qc + 1) % 2 == 1 then quoted delim fuel s start w (qc + 1) else keep ())
+        else keep ()
 
 theorem get_append (a b : List Byte) (i : Nat) (h : i < a.length) : (a ++ b)[i]? = a[i]? := by
   simp [List.getElem?_append_left h]
 theorem set_append (a b : List Byte) (i : Nat) (x : Byte) (h : i < a.length) : (a ++ b).set i x = a.set i x ++ b := by
-  simp [List.set_append, h]
+  simp [h]
 theorem slice_append (a b : List Byte) (i j : Nat) (h : j ≤ a.length) : ((a ++ b).take j).drop i = (a.take j).drop i := by
   rw [List.take_append_of_le_length h]
 
@@ -157,11 +168,19 @@ theorem quoted_sim (delim : Byte) (fuel : Nat) : ∀ (s t : St) (start w qc : Na
       obtain ⟨f0, f1⟩ := a3 rfl
       simp only at h
       have hlen : t.data.length = s1.data.length := by rw [htd, f0]; simp
+      have htd' : t.data = s1.data := by rw [htd, f0, List.append_nil]
       simp only [htc, hlen, f1, ↓reduceIte]
-      simp only [Option.some.injEq, Prod.mk.injEq] at h
-      obtain ⟨hr, hs⟩ := h
-      subst hs
-      refine ⟨t, by rw [← hr]; simp [St.slice, htd, f0], ⟨htd, hf, htc⟩, by omega, by omega⟩
+      simp only [St.slice, htd'] at h ⊢
+      by_cases hcd : (qc % 2 != 0 && decide (s1.cursor < s1.data.length) && s1.data[s1.cursor]? == some delim) = true
+      · simp only [hcd, ↓reduceIte, Option.some.injEq, Prod.mk.injEq] at h ⊢
+        obtain ⟨hr, hs⟩ := h
+        subst hs
+        exact ⟨_, ⟨hr, rfl⟩, ⟨by show s1.data = s1.data ++ s1.future; rw [f0, List.append_nil], hf, rfl⟩,
+          by show w ≤ s1.cursor + 1; omega, by show s.cursor ≤ s1.cursor + 1; omega⟩
+      · simp only [hcd, Bool.false_eq_true, ↓reduceIte, Option.some.injEq, Prod.mk.injEq] at h ⊢
+        obtain ⟨hr, hs⟩ := h
+        subst hs
+        exact ⟨t, ⟨hr, rfl⟩, ⟨htd, hf, htc⟩, by omega, by omega⟩
     · subst he
       have g1 := a4 rfl
       simp only at h
@@ -245,7 +264,10 @@ theorem quoted_sim (delim : Byte) (fuel : Nat) : ∀ (s t : St) (start w qc : Na
             · simp only [c2, Bool.false_eq_true, ↓reduceIte] at h ⊢; exact hkeep r s' h
           · simp only [c3, Bool.false_eq_true, ↓reduceIte] at h ⊢
             by_cases c4 : (ch == CR) = true
-            · simp only [c4, ↓reduceIte] at h ⊢; exact hrec _ r s' h
+            · simp only [c4, ↓reduceIte] at h ⊢
+              by_cases c2 : (qc % 2 != 0) = true
+              · simp only [c2, ↓reduceIte] at h ⊢; exact hrec _ r s' h
+              · simp only [c2, Bool.false_eq_true, ↓reduceIte] at h ⊢; exact hkeep r s' h
             · simp only [c4, Bool.false_eq_true, ↓reduceIte] at h ⊢
               by_cases c5 : (ch == QUOTE) = true
               · simp only [c5, ↓reduceIte] at h ⊢
@@ -398,15 +420,23 @@ theorem quoted_inb (delim : Byte) (fuel : Nat) : ∀ (s : St) (start w qc : Nat)
     simp only at a1 a2 a3 a4 a5
     rcases a5 with he | he
     · subst he
-      simp only [Option.some.injEq, Prod.mk.injEq] at h
-      obtain ⟨_, hs⟩ := h
-      subst hs
       -- s1.cursor = s.cursor ≤ s.data.length ≤ s1.data.length
       have hl : s.data.length ≤ s1.data.length := by
         have := congrArg List.length a1
         have f0 := (a3 rfl).1
         simp [f0] at this; omega
-      omega
+      simp only at h
+      by_cases hcd : (qc % 2 != 0 && decide (s1.cursor < s1.data.length) && s1.data[s1.cursor]? == some delim) = true
+      · simp only [hcd, ↓reduceIte, Option.some.injEq, Prod.mk.injEq] at h
+        obtain ⟨_, hs⟩ := h
+        subst hs
+        simp only [Bool.and_eq_true, decide_eq_true_eq] at hcd
+        show s1.cursor + 1 ≤ s1.data.length
+        omega
+      · simp only [hcd, Bool.false_eq_true, ↓reduceIte, Option.some.injEq, Prod.mk.injEq] at h
+        obtain ⟨_, hs⟩ := h
+        subst hs
+        omega
     · subst he
       have g1 := a4 rfl
       simp only at h
@@ -451,7 +481,10 @@ theorem quoted_inb (delim : Byte) (fuel : Nat) : ∀ (s : St) (start w qc : Nat)
             · simp only [c2, Bool.false_eq_true, ↓reduceIte] at h; exact hkeep r s' h
           · simp only [c3, Bool.false_eq_true, ↓reduceIte] at h
             by_cases c4 : (ch == CR) = true
-            · simp only [c4, ↓reduceIte] at h; exact hrec _ r s' h
+            · simp only [c4, ↓reduceIte] at h
+              by_cases c2 : (qc % 2 != 0) = true
+              · simp only [c2, ↓reduceIte] at h; exact hrec _ r s' h
+              · simp only [c2, Bool.false_eq_true, ↓reduceIte] at h; exact hkeep r s' h
             · simp only [c4, Bool.false_eq_true, ↓reduceIte] at h
               by_cases c5 : (ch == QUOTE) = true
               · simp only [c5, ↓reduceIte] at h
@@ -464,7 +497,12 @@ theorem quoted_inb (delim : Byte) (fuel : Nat) : ∀ (s : St) (start w qc : Nat)
 def fnext (delim : Byte) (fuel : Nat) (fs : FS) : Option (FS × Bool) :=
   if fs.hitEOL then some (fs, false) else
   match ens1 fs.st with
-  | (st, some e) => some ({ fs with st := st, err := some e }, false)
+  | (st, some e) =>
+    -- `err == io.EOF` (the only error of this model) `&& fs.fieldStart > 0`: the input ends right after a
+    -- delimiter, the last field of the row is empty
+    if fs.fieldStart > 0 then
+      some ({ fs with st := st, err := some e, field := st.slice fs.fieldStart fs.fieldStart, hitEOL := true }, true)
+    else some ({ fs with st := st, err := some e }, false)
   | (st, none) =>
     match st.data[st.cursor]? with
     | none => none
@@ -505,14 +543,22 @@ theorem fnext_sim (delim : Byte) (fuel : Nat) (a b : FS) (rel : RelF a b) (hfs :
       have hlen : b.st.data.length = s1.data.length := by rw [htd, f0]; simp
       have hcnd : b.st.cursor ≥ b.st.data.length := by rw [htc, hlen]; exact f1
       simp only [hcnd, ↓reduceIte]
-      simp only [Option.some.injEq, Prod.mk.injEq] at h
-      obtain ⟨h1, h2⟩ := h
-      subst h1; subst h2
-      refine ⟨_, rfl, ⟨⟨htd, hf, htc⟩, r2, rfl, r4, rfl⟩, by show a.fieldStart ≤ s1.cursor; omega, ?_⟩
-      show s1.cursor ≤ s1.data.length
-      have : s1.data.length = a.st.data.length + a.st.future.length := by
-        have := congrArg List.length a1; simp [f0] at this; omega
-      omega
+      have hin : s1.cursor ≤ s1.data.length := by
+        have : s1.data.length = a.st.data.length + a.st.future.length := by
+          have := congrArg List.length a1; simp [f0] at this; omega
+        omega
+      rw [r2]
+      by_cases hfs0 : a.fieldStart > 0
+      · simp only [hfs0, ↓reduceIte, Option.some.injEq, Prod.mk.injEq] at h ⊢
+        obtain ⟨h1, h2⟩ := h
+        subst h1; subst h2
+        refine ⟨_, ⟨rfl, rfl⟩, ⟨⟨htd, hf, htc⟩, rfl, rfl, ?_, rfl⟩, by show a.fieldStart ≤ s1.cursor; omega, hin⟩
+        show b.st.slice a.fieldStart a.fieldStart = s1.slice a.fieldStart a.fieldStart
+        simp [St.slice]
+      · simp only [hfs0, ↓reduceIte, Option.some.injEq, Prod.mk.injEq] at h ⊢
+        obtain ⟨h1, h2⟩ := h
+        subst h1; subst h2
+        exact ⟨_, ⟨rfl, rfl⟩, ⟨⟨htd, hf, htc⟩, rfl, rfl, r4, rfl⟩, by show a.fieldStart ≤ s1.cursor; omega, hin⟩
     · subst hee
       have g1 := a4 rfl
       simp only at h
@@ -697,4 +743,12 @@ theorem any_two_schedules_agree (delim : Byte) (fuel n : Nat) (doc : List Byte) 
 def str (l : List (List (List Byte))) := l.map (·.map fun f => String.fromUTF8! (ByteArray.mk f.toArray))
 #eval (readAll 44 200 50 (initFS "h,k\n\"a\"\"bc\",x\n\"d\"\"ef\",y\n".toUTF8.toList (List.replicate 100 1)) []).map (fun r => str r.1)
 #eval (readAll 44 200 50 (loadedFS "h,k\n\"a\"\"bc\",x\n\"d\"\"ef\",y\n".toUTF8.toList) []).map (fun r => str r.1)
+-- the repairs: CR LF inside quotes is content; a trailing delimiter yields a final empty field
+#eval (readAll 44 200 50 (initFS "a,b\n\"x\r\ny\",z\r\n".toUTF8.toList [3, 1, 1, 2]) []).map (fun r => str r.1)
+#eval (readAll 44 200 50 (initFS "a,b\nx,".toUTF8.toList [1, 1, 1, 1, 1, 1]) []).map (fun r => str r.1)
+#eval (readAll 44 200 50 (initFS "a,b\n\"x\",".toUTF8.toList [2, 2, 2, 1, 1]) []).map (fun r => str r.1)
+#print axioms read_schedule_independent
+#print axioms quoted_sim
+#print axioms quoted_inb
+#print axioms fnext_sim
 end Full
